@@ -22,6 +22,7 @@
 #include <signal.h>
 #include <sys/wait.h>
 #include <sys/stat.h>
+#include <sys/resource.h>
 #include <sys/types.h>
 
 extern int cfg_include_stack_ptr;
@@ -1032,6 +1033,14 @@ static void run_line(char *line)
 		}
 		free(p);
 		free(c);
+	} else if (!strcmp(w[0], "STACK") && n == 2) {
+		/* little stack for the rest of this case (each case is a process of its own): growth beyond it is a SIGSEGV */
+		struct rlimit rl;
+
+		if (getrlimit(RLIMIT_STACK, &rl) == 0) {
+			rl.rlim_cur = (rlim_t)atol(w[1]) * 1024;
+			setrlimit(RLIMIT_STACK, &rl);
+		}
 	} else if (!strcmp(w[0], "PW") || !strcmp(w[0], "MAXINC") || !strcmp(w[0], "MPB")) {
 		/* oracle facts for the model only */
 	} else if (!strcmp(w[0], "ERRNO") && n == 2) {
